@@ -1,10 +1,11 @@
-(* C09 -- the accelerated bit-mask matcher and the reference matcher decide the same atom / bond / closure tests.
+(* C09 -- the accelerated bit-mask matcher and the reference matcher decide the same atom / bond / closure tests and
+   return the same sequence of mappings.
    Statements only; proofs in Proofs.IsoBitsProofs.  The claim is about chython/algorithms/_isomorphism.pyx AS SOURCE
    (run through a transpiler by the check; the compiled extension cannot be built here). *)
 From Coq Require Import ZArith List Bool.
 From Model Require Import PyBase PeriodicTable IsoBits.
 From Gen Require Import Elements.
-From Proofs Require Import IsoBitsProofs.
+From Proofs Require Import IsoBitsProofs IsoBitsSearchProofs.
 Import ListNotations.
 Open Scope Z_scope.
 
@@ -51,6 +52,41 @@ Theorem C09_atom_isotope_representable : forall e i,
   In e elements -> isotope_accepted e i = true -> iso_off_ok (Some i) (e_num e) = true.
 Proof. exact atom_isotope_representable. Qed.
 Print Assumptions C09_atom_isotope_representable.
+
+(* THE SEARCHES.  rq = one component of _compiled_query, rm = the molecule as _get_mapping reads it (atoms by position in
+   dict order).  On the buffers the two encoders write (enc_query / enc_mol = _cython_compiled_query /
+   _cython_compiled_structure, all fields) the loop of _isomorphism.pyx yields exactly the sequence of partial-mapping
+   paths that _get_mapping yields: for every well-formed query component (first entry without bond, the others with one;
+   ring-closure partners distinct and earlier), every well-formed molecule (distinct neighbour keys inside the molecule),
+   all atoms / query atoms / bonds inside the representable range, EVERY scope and every amount of fuel.
+   No bound on the number of atoms, on the query size or on the number of closures. *)
+Theorem C09_mask_search_equiv : forall rq rm scope fuel,
+  rq <> [] -> wf_query rq -> wf_mol rm -> in_range_pair rq rm ->
+  mask_search (enc_query rq) (enc_mol rm) scope fuel = ref_search rq rm scope fuel.
+Proof. exact mask_search_equiv. Qed.
+Print Assumptions C09_mask_search_equiv.
+
+(* the same with the hypotheses as one boolean that the correspondence runner evaluates on the real inputs *)
+Theorem C09_mask_search_equiv_b : forall rq rm scope fuel,
+  hyps_ok rq rm = true -> mask_search (enc_query rq) (enc_mol rm) scope fuel = ref_search rq rm scope fuel.
+Proof. exact mask_search_equiv_b. Qed.
+Print Assumptions C09_mask_search_equiv_b.
+
+(* the dictionaries built from a path are the same: query atom number -> molecule atom number *)
+Theorem C09_mapping_equiv : forall rq rm p, Forall (fun i => 0 <= i < zlen rm) p ->
+  mask_mapping (enc_query rq) (enc_mol rm) p = ref_mapping rq rm p.
+Proof. exact mapping_equiv. Qed.
+Print Assumptions C09_mapping_equiv.
+
+(* non-vacuity of the search theorem: ring query with one closure on methylcyclopropane, six mappings; empty under a scope *)
+Theorem C09_mask_search_example :
+  hyps_ok ex_rq ex_rm = true /\
+  mask_search (enc_query ex_rq) (enc_mol ex_rm) [true; true; true; true] 100 =
+    Some [[3; 2; 1]; [3; 1; 2]; [2; 3; 1]; [2; 1; 3]; [1; 3; 2]; [1; 2; 3]] /\
+  ref_search ex_rq ex_rm [true; true; true; true] 100 = Some [[3; 2; 1]; [3; 1; 2]; [2; 3; 1]; [2; 1; 3]; [1; 3; 2]; [1; 2; 3]] /\
+  mask_search (enc_query ex_rq) (enc_mol ex_rm) [true; true; true; false] 100 = Some [].
+Proof. exact mask_search_example. Qed.
+Print Assumptions C09_mask_search_example.
 
 (* the hypotheses cannot be dropped: four divergences of the unchanged code (known findings of C09) *)
 Theorem C09_anymetal_mask_refuted :
